@@ -2,8 +2,10 @@ package main
 
 import (
 	"bytes"
+	"context"
 	"errors"
 	"fmt"
+	"github.com/muktihari/fit/profile/basetype"
 	"io"
 
 	"github.com/muktihari/fit/decoder"
@@ -147,7 +149,12 @@ func runEncodePre(ec encCfg, files []encFile, kind int, bufSize int, stream bool
 			if presetDS != nil {
 				fit.FileHeader.DataSize = presetDS[i]
 			}
-			err := enc.Encode(fit)
+			var err error
+			if (kind+bufSize+i)%2 == 1 { // the context variant has its own copy of the write path; same contract
+				err = enc.EncodeWithContext(context.Background(), fit)
+			} else {
+				err = enc.Encode(fit)
+			}
 			res.errs = append(res.errs, err != nil)
 			if err != nil {
 				return
@@ -251,6 +258,8 @@ func (r *rng) genWritableChain() (encCfg, []encFile, []uint32) {
 		hs := byte(14)
 		if r.chance(1, 4) {
 			hs = 12
+		} else if r.chance(1, 8) {
+			hs = byte(r.pick(0, 13, 20, 255))
 		}
 		ec.headerSize = hs
 		continueTs := r.chance(1, 2)
@@ -304,7 +313,7 @@ func c09(args []string) {
 		}
 	}
 	bufSizes := []int{-1, 0, 1, 7, 64, 4096}
-	pats := tsPatternChains(r)
+	pats := append(tsPatternChains(r), redeclaredChains(r)...)
 	for i := -len(pats); i < n; i++ {
 		var ec encCfg
 		var files []encFile
@@ -420,6 +429,16 @@ func c11(args []string) {
 	}
 	for i := 0; i < n; i++ {
 		ec, files, _ := r.genWritable()
+		switch i % 4 {
+		case 1: // the same file twice: equal data sizes, a stream encoder's retained header needs no update for the second one
+			files = []encFile{files[0], {hsize: files[0].hsize, proto: files[0].proto, profile: files[0].profile, msgs: cloneMessages(files[0].msgs)}}
+			stat("fault_chains_with_repeated_file", 1)
+		case 3: // a real chain: failures inside and at the start of a later file
+			for len(files) < 2 {
+				ec, files, _ = r.genWritable()
+			}
+		}
+		stat(fmt.Sprintf("fault_chain_len_%d", len(files)), 1)
 		for kind := 0; kind < 4; kind++ {
 			for _, bs := range []int{0, 1, 7, 64, 4096} {
 				for _, stream := range []bool{false, true} {
@@ -518,6 +537,57 @@ func tsPatternChains(r *rng) []oddInput {
 			out = append(out, oddInput{ec, []encFile{{hsize: 14, msgs: mk(p)}}})
 			out = append(out, oddInput{ec, []encFile{{hsize: 14, msgs: mk(p)}, {hsize: 14, msgs: mk(patterns[(pi+1)%len(patterns)])}}})
 		}
+	}
+	return out
+}
+
+// redeclaredChains: chains whose files declare the same (developer data index, field number) with different base types, with
+// values that are the invalid sentinel of one declaration and an ordinary value of the other -- every file is validated
+// against its own declarations only, whichever encoder writes it.
+func redeclaredChains(r *rng) []oddInput {
+	loadFactory()
+	mkFile := func(bt basetype.BaseType, v proto.Value, hr uint8) []proto.Message {
+		msgs := []proto.Message{fileIdMesg(r)}
+		dd := proto.Message{Num: mesgnum.DeveloperDataId}
+		f := factory.CreateField(mesgnum.DeveloperDataId, fieldnum.DeveloperDataIdDeveloperDataIndex)
+		f.Value = proto.Uint8(0)
+		dd.Fields = append(dd.Fields, f)
+		msgs = append(msgs, dd)
+		fd := proto.Message{Num: mesgnum.FieldDescription}
+		add := func(num byte, v proto.Value) {
+			f := factory.CreateField(mesgnum.FieldDescription, num)
+			f.Value = v
+			fd.Fields = append(fd.Fields, f)
+		}
+		add(fieldnum.FieldDescriptionDeveloperDataIndex, proto.Uint8(0))
+		add(fieldnum.FieldDescriptionFieldDefinitionNumber, proto.Uint8(0))
+		add(fieldnum.FieldDescriptionFitBaseTypeId, proto.Uint8(uint8(bt)))
+		add(fieldnum.FieldDescriptionFieldName, proto.SliceString([]string{"x"}))
+		msgs = append(msgs, fd)
+		m := proto.Message{Num: mesgnum.Record}
+		h := factory.CreateField(mesgnum.Record, fieldnum.RecordHeartRate)
+		h.Value = proto.Uint8(hr)
+		m.Fields = append(m.Fields, h)
+		m.DeveloperFields = append(m.DeveloperFields, proto.DeveloperField{Num: 0, DeveloperDataIndex: 0, Value: v})
+		return append(msgs, m)
+	}
+	type decl struct {
+		bt basetype.BaseType
+		v  proto.Value
+	}
+	pairs := [][2]decl{
+		{{basetype.Uint8, proto.Uint8(5)}, {basetype.Uint8z, proto.Uint8(0)}},
+		{{basetype.Uint8z, proto.Uint8(5)}, {basetype.Uint8, proto.Uint8(255)}},
+		{{basetype.Uint8, proto.Uint8(0)}, {basetype.Uint8z, proto.Uint8(255)}},
+		{{basetype.Uint16, proto.Uint16(7)}, {basetype.Uint16z, proto.Uint16(0)}},
+		{{basetype.Uint32z, proto.Uint32(9)}, {basetype.Uint32, proto.Uint32(0xFFFFFFFF)}},
+		{{basetype.Enum, proto.Uint8(1)}, {basetype.Uint8z, proto.Uint8(0)}},
+	}
+	var out []oddInput
+	for pi, p := range pairs {
+		ec := encCfg{headerSize: 14, protoVer: proto.V2, bigEndian: pi%2 == 1}
+		out = append(out, oddInput{ec, []encFile{{hsize: 14, msgs: mkFile(p[0].bt, p[0].v, 60)}, {hsize: 14, msgs: mkFile(p[1].bt, p[1].v, 70)}}})
+		stat("redeclared_developer_field_chains", 1)
 	}
 	return out
 }
